@@ -453,8 +453,17 @@ func SliceFunction(env *Zlisp, name string, args []Sexp) (Sexp, error) {
 
 	switch t := args[0].(type) {
 	case *SexpArray:
+		// (Go lets a slice expression reach into the spare capacity
+		// behind len - append leaves some - where the elements are
+		// nil interfaces that nothing in the VM can digest.)
+		if start < 0 || end > len(t.Val) || start > end {
+			return SexpNull, fmt.Errorf("slice bounds [%d:%d] out of range for an array of length %d", start, end, len(t.Val))
+		}
 		return &SexpArray{Val: t.Val[start:end], Env: env, Typ: t.Typ}, nil
 	case *SexpStr:
+		if start < 0 || end > len(t.S) || start > end {
+			return SexpNull, fmt.Errorf("slice bounds [%d:%d] out of range for a string of length %d", start, end, len(t.S))
+		}
 		return &SexpStr{S: t.S[start:end]}, nil
 	}
 
